@@ -491,6 +491,7 @@ deriving DecidableEq, Repr
 
 /-- rhp/v2/rpc.go `rpcFormContract` from the hard-fork guard to `AddContract` -/
 def rpcForm2 (requireHeight : Nat) (fc : Rev) (expUH height : Nat) (st : Settings) : Res Recorded := do
+  check .afterHardfork (decide (height ≥ requireHeight))     -- rpcLoop: RHP2 is disabled after the require height
   check .afterHardfork (decide (fc.wStart ≥ requireHeight))
   let hostCollateral ← validateFormation fc expUH height st
   pure { locked := hostCollateral, rpcRevenue := st.contractPrice, storageRevenue := 0, risked := 0, clearingRPC := 0 }
@@ -499,6 +500,8 @@ def rpcForm2 (requireHeight : Nat) (fc : Rev) (expUH height : Nat) (st : Setting
 (signature checks and transaction funding are outside the model) -/
 def rpcRenew2 (fx : Bool) (requireHeight : Nat) (existing renewal : Rev) (finalVals : List Nat)
     (expUH height : Nat) (st : Settings) : Res Recorded := do
+  check .afterHardfork (decide (height ≥ requireHeight))     -- rpcLoop
+  check .locked (decide (existing.revNo = maxRev))             -- session.ContractRevisable
   check .afterHardfork (decide (renewal.wStart ≥ requireHeight))
   let clearing ← clearingRevision existing finalVals
   let evr ← out0 .rpcExistingValidRenter existing.valid
@@ -512,7 +515,8 @@ def rpcRenew2 (fx : Bool) (requireHeight : Nat) (existing renewal : Rev) (finalV
   pure { locked := locked, rpcRevenue := st.contractPrice, storageRevenue := storage, risked := risked,
          clearingRPC := finalPayment }
 
-/-- rhp/v3/rpc.go `handleRPCRenew` from the hard-fork guard to `RenewContract` -/
+/-- rhp/v3/rpc.go `handleRPCRenew` from the hard-fork guard to `RenewContract` (the height check of
+`Serve` is outside: the harness hands the stream to `handleHostStream` directly) -/
 def rpcRenew3 (fx : Bool) (requireHeight : Nat) (existing clearing renewal : Rev)
     (expUH height : Nat) (st : Settings) : Res Recorded := do
   check .afterHardfork (decide (renewal.wStart ≥ requireHeight))
